@@ -139,6 +139,9 @@ def _merge_tuples_into_additional_attributes(
     atom_index_and_value_tuples: list[tuple[int, int]], key: str, additional_attrs: dict
 ) -> None:
     for atom_index, value in atom_index_and_value_tuples:
+        if value == 0:
+            # An explicit default value means the same as no entry.
+            continue
         if atom_index in additional_attrs:
             additional_attrs[atom_index][key] = value
         else:
